@@ -1004,7 +1004,10 @@ func (env *SpecEnv) call(e *SExpr) SVal {
 				env.fail("arglocal(i): i must be the index of a callback argument")
 			}
 			l, ok := env.rawArgs[i].(*Loc)
-			return SVal{T: BoolLit(ok && l.Kind == rootCell), Typ: types.Typ[types.Bool]}
+			// a local that escapes (its address is taken and handed on) is a heap object
+			// allocated by this very function: local all the same
+			local := ok && (l.Kind == rootCell || (l.Kind == rootHeap && l.Ref != nil && isFreshRef(l.Ref)))
+			return SVal{T: BoolLit(local), Typ: types.Typ[types.Bool]}
 		case "derefarg":
 			// (callback contracts) the value argument i of the callback call points to (also for
 			// interior pointers, which have no term of their own)
